@@ -23,7 +23,6 @@ func (p targetPanic) String() string {
 	return toString(p.v)
 }
 
-
 // constValue returns the value of the constant with the
 // dynamic type tag appropriate for c.Type().
 func constValue(c *ssa.Const) value {
